@@ -139,6 +139,8 @@ def replay(v):
         probs.extend(sp)
         o2 = C.evaluate(cs, monitors=("result",), compiled=compiled)
         probs.extend(o2.problems)
+        for p in probs:
+            p["tiebreak"] = tb
         if probs:
             out = C.Outcome()
             out.status = "ok"
@@ -160,7 +162,8 @@ def finalize(results, counters, tier, seed):
         inc.append("no hoisted node was ever observed")
     miss = [t for t in ("occ-leader-per-level", "occ-with-follower", "flatten-occupancy",
                         "double-flatten", "m-merger-static", "m-merger-dynamic", "m-eager",
-                        "st-coord", "cascade3", "partitioned")
+                        "st-coord", "cascade3", "partitioned", "both-dims-partitioned", "m-partitioned",
+                        "reread-input")
             if counters.get("strata_ok", {}).get(t, 0) == 0]
     if miss:
         inc.append("graph shapes never compiled and executed: %r" % miss)
